@@ -5,13 +5,14 @@ For each source dir (patch.diff or patch.ported.diff, demo.py, notes.md): apply,
 demonstration (must FAIL), undo, run the demonstration again (must PASS).  Kept only if all of that holds.
 """
 import json
+import os
 import re
 import shutil
 import subprocess
 import sys
 from pathlib import Path
 
-REPO = "/repo"
+REPO = os.environ.get("XV_REPO", "/repo")
 V = Path(__file__).resolve().parent.parent
 
 
@@ -26,7 +27,7 @@ def clean():
 
 def main():
     prefix = next((a.split("=", 1)[1] for a in sys.argv[1:] if a.startswith("--prefix=")), "")
-    dirs = [Path(a) for a in sys.argv[1:] if not a.startswith("--")] or sorted(Path("/tmp/mut/out").glob("C*/m*"))
+    dirs = [Path(a).resolve() for a in sys.argv[1:] if not a.startswith("--")] or sorted(Path("/tmp/mut/out").glob("C*/m*"))
     for d in dirs:
         pid = d.parent.name
         sid = f"{pid}-{prefix}{d.name}"
